@@ -31,6 +31,8 @@ func init() {
 		Doc: "the allOf compiler reaches every node and every added type (processNode over Children(), CompileAllOf over the type table): " + doc})
 	register(&Rule{ID: "VIS-rec", Min: 1, Run: func(c *load.Ctx, r *report.RuleResult) { runVIS1(c, r, "rec") },
 		Doc: "the recursion checker follows every property of an object, the visited node being an element of Children(): " + doc})
+	register(&Rule{ID: "VIS-unnamed", Min: 1, Run: func(c *load.Ctx, r *report.RuleResult) { runVIS1(c, r, "unnamed") },
+		Doc: "every type an added type knows is handed on to the root (AddUnnamedTypes: the AddType call is on every path through the inner loop body) — the or rule-set types as well as the named types that were added to the added type, which is how a reference two AddType levels down is resolved: " + doc})
 	register(&Rule{ID: "VIS-collect", Min: 3, Run: func(c *load.Ctx, r *report.RuleResult) { runVIS1(c, r, "collect") },
 		Doc: "the used-type collector reaches every property (key shortcuts included) and every array element: " + doc})
 }
@@ -52,6 +54,7 @@ var visInstances = []visInstance{
 	{"collect", "notations/jschema", "userTypesCollector.collectUserTypesObjectNode", "notations/jschema", "userTypesCollector.collect", false, "type references are collected below every property, including key shortcuts", ""},
 	{"collect", "notations/jschema", "userTypesCollector.collect", "notations/jschema", "userTypesCollector.collect", true, "type references are collected below every array element", "Children"},
 	{"collect", "notations/jschema", "userTypesCollector.collect", "notations/jschema", "userTypesCollector.collectUserTypesObjectNode", true, "the properties of every object node are walked", ""},
+	{"unnamed", pkgLoader, "AddUnnamedTypes", pkgSchema, "Schema.AddType", true, "every type in an added type's own table reaches the root's table, whatever its name looks like", ""},
 	{"rec", pkgChecker, "recursionChecker.check", pkgChecker, "recursionChecker.check", true, "the recursion check follows every property of an object (optional ones are skipped by the callee itself), key shortcuts included: a walk over the recorded required keys misses them", "Children"},
 }
 
